@@ -45,13 +45,15 @@ let () =
   let kind_of name = match name with
     | "vsinfo" | "vsattach" | "vsattachn" | "vsdetach" -> Some "vs"
     | "vinfo" | "vattach" | "vattachn" | "vdetach" -> Some "vg"
-    | "sdinfo" | "sdselect" | "sdcreate" | "sdendaccess" -> Some "sds"
-    | "grinfo" | "grselect" | "grcreate" | "grendaccess" -> Some "ri"
+    | "sdinfo" | "sdreaddata" | "sdselect" | "sdcreate" | "sdendaccess" -> Some "sds"
+    | "grinfo" | "grreadimage" | "grreadlut" | "grselect" | "grcreate" | "grendaccess" -> Some "ri"
     | "inquire" | "startaccess" | "startread" | "startwrite" | "endaccess" | "hlcreate" | "hxcreate" | "hccreate" | "hmccreate" -> Some "aid"
     | "sdfileinfo" | "sdstart" | "sdend" -> Some "sd"
     | "grfileinfo" | "grstart" | "grend" -> Some "gr"
     | _ -> None in
-  let is_inquiry name = List.mem name ["vsinfo"; "vinfo"; "sdinfo"; "grinfo"; "inquire"; "sdfileinfo"; "grfileinfo"] in
+  (* inquiries, and whole-object reads (their result class and content hash): what a handle shows must not change across
+     refused requests *)
+  let is_inquiry name = List.mem name ["vsinfo"; "vinfo"; "sdinfo"; "grinfo"; "inquire"; "sdfileinfo"; "grfileinfo"; "grreadimage"; "sdreaddata"; "grreadlut"] in
   let st = ref init in
   let dead = ref false in
   List.iteri (fun i line ->
@@ -78,29 +80,39 @@ let () =
          let aux = match rt with
            | "check" :: rest -> if rest = ["same"] then 1 else 0
            | "dump" :: rest ->
-             (* last token = comma-separated record hashes; baseline = first dump of the history *)
-             let hs = match List.rev rest with
-               | last :: _ when Stdlib.String.length last >= 8 && not (Stdlib.String.contains last '=') -> String.split_on_char ',' last
-               | _ -> [] in
+             (* record hashes: "<all>" and "view=<interface-level records>"; baseline = first dump of the history.
+                aux = 1: every baseline record is still there; 3: every baseline VIEW record is; 0: neither *)
+             let split_h s = List.filter (fun x -> x <> "") (String.split_on_char ',' s) in
+             let is_view t = Stdlib.String.length t >= 5 && Stdlib.String.sub t 0 5 = "view=" in
+             let vh = match List.find_opt is_view rest with Some t -> split_h (Stdlib.String.sub t 5 (Stdlib.String.length t - 5)) | None -> [] in
+             let ah = match List.filter (fun t -> not (is_view t) && not (Stdlib.String.contains t '=')) rest with t :: _ -> split_h t | [] -> [] in
              if Hashtbl.length dumps = 0 then begin
-               Hashtbl.add dumps "#baseline" 0; List.iter (fun h -> Hashtbl.replace dumps h 1) hs; 1 end
+               Hashtbl.add dumps "#baseline" 0;
+               List.iter (fun h -> Hashtbl.replace dumps ("a" ^ h) 1) ah; List.iter (fun h -> Hashtbl.replace dumps ("v" ^ h) 1) vh; 1 end
              else begin
-               let cur = Hashtbl.create 64 in List.iter (fun h -> Hashtbl.replace cur h 1) hs;
-               let ok = ref true in
-               Hashtbl.iter (fun h _ -> if h <> "#baseline" && not (Hashtbl.mem cur h) then ok := false) dumps;
-               if !ok then 1 else 0 end
+               let cur = Hashtbl.create 64 in
+               List.iter (fun h -> Hashtbl.replace cur ("a" ^ h) 1) ah; List.iter (fun h -> Hashtbl.replace cur ("v" ^ h) 1) vh;
+               let all_ok = ref true and view_ok = ref true in
+               Hashtbl.iter (fun h _ -> if h <> "#baseline" && not (Hashtbl.mem cur h) then
+                                          (if h.[0] = 'v' then view_ok := false else all_ok := false)) dumps;
+               if !all_ok && !view_ok then 1 else if !view_ok then 3 else 0 end
            | _ ->
              (match kind_of name, args with
               | Some k, slot :: _ ->
                 let ep = try Hashtbl.find epochs (k, slot) with Not_found -> 0 in
                 if is_inquiry name then begin
                   match rt with
-                  | "ok" :: ans ->
+                  | ("ok" | "fail") :: _ ->
+                    let ans = rt in
                     let ans = List.filter (fun s -> not (Stdlib.String.length s > 2 && Stdlib.String.sub s 0 2 = "w=")) ans in
                     let key = (name, k, slot, ep) in
-                    (match Hashtbl.find_opt answers key with
+                    let is_read = List.mem name ["grreadimage"; "sdreaddata"; "grreadlut"] in
+                    let verdict = (match Hashtbl.find_opt answers key with
                      | Some (a0, r0) when r0 = !readers -> if a0 = ans then 1 else 2   (* only mutators / inquiries in between *)
-                     | _ -> Hashtbl.replace answers key (ans, !readers); 1)
+                     | _ -> 1) in
+                    (* a whole-object read is itself a reading call (it may derive state): it ends the interval of the others *)
+                    if is_read then incr readers;
+                    Hashtbl.replace answers key (ans, !readers); verdict
                   | _ -> 0
                 end else begin
                   (match rt with "na" :: _ -> () | _ -> if not (is_mutator (coq_string name) (List.map (fun t -> z (num_of_tok t)) args)) then incr readers);
